@@ -11,7 +11,7 @@ RULE = ("all standard-library modules (Context::list_modules): each imported alo
         "aliases, every unit's structured definition, and the value (bit pattern) and displayed type of every variable. "
         "distinct = ordered module list; non-trivial = the two modules are different")
 EXHAUSTIVE = {"quick": False, "thorough": True}
-FLOOR = {"quick": 300, "thorough": 3000}
+FLOOR = {"quick": 300, "thorough": 2000}
 ASSUMPTIONS = ["`units::currencies` runs on numbat's built-in test exchange rates", "name lists are compared as sets: the order "
                "in which names are listed legitimately follows the import order"]
 NSHARDS = 16
